@@ -29,6 +29,8 @@ type hostileReq struct {
 func hostileSeq(rnd *hx.Rand, id int, st *hx.Stats) (out []concObs, suspicious bool) {
 	b := newB(rnd, id)
 	patterns := []string{"/u/{id}", "/s", "/files/*{p}/meta", "/files/*{p}/raw/{n}", "api.{env}.hz.com/u/{id}", "/t/{a}/"}
+	b.notePattern(patterns...)
+	b.notePattern("/extra0/{a}/{b}")
 	patID := map[string]int{}
 	for k, p := range patterns {
 		patID[p] = k + 1
@@ -36,6 +38,14 @@ func hostileSeq(rnd *hx.Rand, id int, st *hx.Stats) (out []concObs, suspicious b
 	extra := 0
 	var got []View
 	var gotOK bool
+	// views of the copies a hostile handler takes of its own request (Clone, CloneWith), observed BEFORE it writes into them
+	type copyObs struct {
+		v    View
+		ok   bool
+		what string
+		rv   *ReqVal // CloneWith: the request given (with a fresh writer); nil: Clone (request and writer state of the original)
+	}
+	var copies []copyObs
 	var problems []string
 	var shared *fox.Router
 	passive := func(c fox.Context) (View, bool) {
@@ -61,7 +71,7 @@ func hostileSeq(rnd *hx.Rand, id int, st *hx.Stats) (out []concObs, suspicious b
 				}
 				tok := c.Request().Header.Get("X-Tok")
 				live := map[uintptr]string{idOf(c): "the context serving the request"}
-				take := func(what string, x fox.Context) {
+				take := func(what string, x fox.Context, given ...*http.Request) {
 					if x == nil {
 						return
 					}
@@ -69,6 +79,15 @@ func hostileSeq(rnd *hx.Rand, id int, st *hx.Stats) (out []concObs, suspicious b
 						problems = append(problems, fmt.Sprintf("%s returned an object that is still in use as %s (same *cTx handed out twice by the pool)", what, prev))
 					}
 					live[idOf(x)] = what
+					if what != "Lookup" {
+						co := copyObs{what: what}
+						co.v, co.ok = passive(x)
+						if len(given) > 0 {
+							g := given[0]
+							co.rv = &ReqVal{Method: g.Method, Host: g.Host, Path: g.URL.Path, Query: valuesKV(g.URL.Query()), Hdr: valuesKV(g.Header), Remote: g.RemoteAddr}
+						}
+						copies = append(copies, co)
+					}
 					// write into everything the context hands out
 					q := x.QueryParams()
 					q.Set("hostile", what+"-"+tok)
@@ -81,7 +100,7 @@ func hostileSeq(rnd *hx.Rand, id int, st *hx.Stats) (out []concObs, suspicious b
 				if b.rnd.Pct(80) {
 					r2 := httptest.NewRequest("GET", "/u/sub-"+tok, nil)
 					cw := c.CloneWith(fox.VerifNewRecorder(httptest.NewRecorder()), r2)
-					take("CloneWith", cw)
+					take("CloneWith", cw, r2)
 					closers = append(closers, cw)
 				}
 				if b.rnd.Pct(80) {
@@ -95,7 +114,7 @@ func hostileSeq(rnd *hx.Rand, id int, st *hx.Stats) (out []concObs, suspicious b
 				if b.rnd.Pct(40) {
 					r4 := httptest.NewRequest("GET", "/u/sub2-"+tok, nil)
 					cw := c.CloneWith(fox.VerifNewRecorder(httptest.NewRecorder()), r4)
-					take("second CloneWith", cw)
+					take("second CloneWith", cw, r4)
 					closers = append(closers, cw)
 				}
 				for _, x := range closers {
@@ -133,7 +152,7 @@ func hostileSeq(rnd *hx.Rand, id int, st *hx.Stats) (out []concObs, suspicious b
 		}
 		r.Header.Set("X-Tok", tok)
 		rv := ReqVal{Method: "GET", Host: r.Host, Path: r.URL.Path, Query: valuesKV(r.URL.Query()), Hdr: valuesKV(r.Header), Remote: r.RemoteAddr}
-		got, gotOK = nil, false
+		got, gotOK, copies = nil, false, nil
 		func() {
 			defer func() {
 				if rec := recover(); rec != nil {
@@ -183,12 +202,27 @@ func hostileSeq(rnd *hx.Rand, id int, st *hx.Stats) (out []concObs, suspicious b
 		}
 		for j, v := range seen {
 			when := []string{"at handler entry", "after writing into its Clone / CloneWith / Lookup contexts"}[min(j, 1)]
-			if v.Route != fresh[0].Route || !sameKVs(v.Params, fresh[0].Params) || !sameKVs(v.Query, rv.Query) || !sameKVs(v.W.Hdr, fresh[0].W.Hdr) || !sameKVs(v.Req.Hdr, fresh[0].Req.Hdr) {
+			if v.Route != fresh[0].Route || !sameKVs(v.Params, fresh[0].Params) || !sameKVs(v.Query, rv.Query) || !sameKVs(v.W.Hdr, fresh[0].W.Hdr) || !sameKVs(v.Req.Hdr, fresh[0].Req.Hdr) || v.paramOdd() {
 				suspicious = true
 				st.Count("hostile:DIFFERS-from-own-request")
 			}
 			out = append(out, concObs{v: v, bad: !sok, spec: spec,
 				human: fmt.Sprintf("hostile sequence %d request %d %s, %s, after %v: shows %s; its own request alone gives route=%d params=%v query=%v", id, k, desc, when, history, v.human(), fresh[0].Route, fresh[0].Params, rv.Query)})
+		}
+		// the copies show the match data of THIS request: a Clone everything the original showed at entry, a
+		// CloneWith(w', r') the request and (fresh) writer it was given
+		for _, co := range copies {
+			cspec := spec
+			if co.rv != nil {
+				cspec = fmt.Sprintf("(XEntry %s None %s [])", envCoq(*co.rv, freshW(nil), 1), shape)
+			}
+			if co.v.Route != fresh[0].Route || !sameKVs(co.v.Params, fresh[0].Params) || co.v.paramOdd() || !co.ok {
+				suspicious = true
+				st.Count("hostile:COPY-DIFFERS-from-own-request")
+			}
+			st.Count("hostile:copy-observed:" + co.what)
+			out = append(out, concObs{v: co.v, bad: !co.ok, spec: cspec,
+				human: fmt.Sprintf("hostile sequence %d request %d %s, its %s copy before anything is written into it, after %v: shows %s; its own request alone gives route=%d params=%v", id, k, desc, co.what, history, co.v.human(), fresh[0].Route, fresh[0].Params)})
 		}
 		if len(seen) == 0 {
 			out = append(out, concObs{bad: true, spec: spec, human: fmt.Sprintf("hostile sequence %d request %d %s: handler not invoked", id, k, desc)})
